@@ -4,7 +4,8 @@ Mirror of
     `last_by_depth` list of aliased children lists) and `weasyprint/document.py::make_bookmark_tree`;
   * `weasyprint/pdf/anchors.py::add_outlines` (object numbers, `Count`, `Prev/Next/First/Last/Parent`);
   * `weasyprint/pdf/anchors.py::resolve_links`;
-  * `sorted(pdf_names)` of `weasyprint/pdf/__init__.py::generate_pdf`.
+  * `sorted(pdf_names, key=key_bytes)` of `weasyprint/pdf/__init__.py::generate_pdf` (since 09da5a8 the
+    named destinations are ordered by the bytes of the written keys, not by code points).
 
 Python failure points are explicit (`Except PyErr`): `skipped_levels.pop()` on an empty list,
 `last_by_depth[depth - 1]`, the two asserts, `pdf.page_references[page]`.
@@ -12,6 +13,7 @@ No Mathlib: linked into the driver.
 -/
 import WpModel.Model.Wire
 import WpModel.Model.Anchors
+import WpModel.Model.C18PdfString
 
 namespace Wp.Outline
 open Wp Wp.Anchors
@@ -349,19 +351,26 @@ def resolveLinks (pages : List LPage) : List (List Link × List Anchor) :=
 
 /-! ## Name tree order -/
 
-/-- Python `str.__lt__`: lexicographic on code points. -/
+/-- Python `bytes.__lt__` (and `str.__lt__`): lexicographic on the elements. -/
 def nameLt : List Nat → List Nat → Bool
   | [], [] => false
   | [], _ :: _ => true
   | _ :: _, [] => false
   | a :: as, b :: bs => if a < b then true else if b < a then false else nameLt as bs
 
+/-- `key_bytes(anchor)` of `generate_pdf`: `name.encode('ascii')` when `name.isascii()`, else
+`BOM_UTF16_BE + name.encode('utf-16-be')` — the bytes of the string object `pydyf.String(name)`
+denotes.  (A lone surrogate cannot come out of the HTML parser; `encode` would raise on it exactly
+where `pydyf.String.data` raises when the file is written: `Wp.PdfStr.encode`.) -/
+def keyBytes (name : List Nat) : List Nat :=
+  if name.all (· < 128) then name else 254 :: 255 :: name.flatMap Wp.PdfStr.utf16be
+
 def insertName (x : List Nat × Nat) : List (List Nat × Nat) → List (List Nat × Nat)
   | [] => [x]
-  | y :: ys => if nameLt y.1 x.1 then y :: insertName x ys else x :: y :: ys
+  | y :: ys => if nameLt (keyBytes y.1) (keyBytes x.1) then y :: insertName x ys else x :: y :: ys
 
-/-- `sorted(pdf_names)` (keys are distinct after `resolve_links`, so only the name is compared; the
-second component identifies the destination). Stable insertion sort. -/
+/-- `sorted(pdf_names, key=key_bytes)`: only the name is compared; the second component identifies the
+destination.  Stable insertion sort (as `sorted` is stable). -/
 def sortNames : List (List Nat × Nat) → List (List Nat × Nat)
   | [] => []
   | x :: xs => insertName x (sortNames xs)
